@@ -32,6 +32,28 @@ static int on_complete(parsec_taskpool_t *tp, void *data)
     return 0;
 }
 
+/* the smallest legal taskpool of a user-defined DSL: no task class, no task, no pending action (what
+ * parsec_map_operator_New builds for a rank that owns no tile).  It is complete as soon as it is enabled. */
+static void null_startup(parsec_context_t *context, parsec_taskpool_t *tp, parsec_task_t **startup_list)
+{
+    (void)context; (void)tp;
+    *startup_list = NULL;
+}
+static parsec_taskpool_t *null_taskpool_new(void)
+{
+    parsec_taskpool_t *tp = PARSEC_OBJ_NEW(parsec_taskpool_t);
+    tp->taskpool_name = strdup("null");
+    tp->taskpool_type = PARSEC_TASKPOOL_TYPE_PTG;
+    tp->nb_tasks = 0;
+    tp->nb_pending_actions = 0;
+    tp->startup_hook = null_startup;
+    tp->nb_task_classes = 0;
+    tp->devices_index_mask = PARSEC_DEVICES_ALL;
+    tp->update_nb_runtime_task = parsec_add_fetch_runtime_task;
+    (void)parsec_taskpool_reserve_id(tp);
+    return tp;
+}
+
 void *rank_main(void *arg)
 {
     ptg_rank_arg_t *ra = arg;
@@ -64,7 +86,8 @@ void *rank_main(void *arg)
         ptgh_event(MYRANK, PE_ACTION_BEGIN, i, a->kind);
         switch (a->kind) {
         case PA_NEW:
-            tp[a->a] = ptg_make(DC, a->a, SH->G, ne);
+            if (a->b == 2) tp[a->a] = null_taskpool_new();     /* b = 2: a taskpool of a minimal user DSL that has nothing to do: terminates inside parsec_context_add_taskpool */
+            else { static const int GZ[4] = {0, 0, 0, 0}; tp[a->a] = ptg_make(DC, a->a, a->b ? GZ : SH->G, ne); }     /* b = 1: every global 0, no task instance */
             break;
         case PA_ADD:
             /* members of a compound must not carry a completion callback of their own (compound.c
